@@ -1,4 +1,4 @@
-\* generated by mkstorecfg.py - edge cover, l1info reorgs
+\* generated by mkstorecfg.py - edge cover, l1info reorgs (also failing reorgs)
 CONSTANTS
   Kind = "l1info"
   Fixed = TRUE
@@ -7,7 +7,7 @@ CONSTANTS
   MaxEvents = 2
   MaxLeaves = 3
   MaxOps = 4
-  Faults = {}
+  Faults = {"reorg"}
   AllowGap = FALSE
   AllowRestart = FALSE
   AllowReorg = TRUE
